@@ -162,6 +162,8 @@ pub struct Stats {
     pub sample_paths: Mutex<Vec<Vec<Action>>>,
     /// every violation key seen (known findings included)
     pub viol_keys: Mutex<BTreeSet<String>>,
+    /// one path per distinct terminal log
+    pub terminal_log_paths: Mutex<std::collections::BTreeMap<u128, Vec<Action>>>,
 }
 
 pub struct ConnModel {
@@ -209,6 +211,7 @@ impl ConnModel {
             let d = digest_of(&format!("{:?}", o.logs));
             let mut tl = self.stats.terminal_logs.lock().unwrap();
             if tl.insert(d) {
+                self.stats.terminal_log_paths.lock().unwrap().insert(d, path.clone());
                 let mut sp = self.stats.sample_paths.lock().unwrap();
                 if sp.len() < 3 {
                     sp.push(path.clone());
@@ -263,6 +266,7 @@ pub struct RunResult {
     pub found: bool,
     pub terminal_log_set: BTreeSet<u128>,
     pub viol_keys: BTreeSet<String>,
+    pub terminal_log_paths: std::collections::BTreeMap<u128, Vec<Action>>,
 }
 
 pub fn explore(scn: Scenario, rep: Arc<Reporter>, threads: usize, dfs: bool, dedup: bool, cap: Option<usize>) -> Option<RunResult> {
@@ -287,6 +291,7 @@ pub fn explore(scn: Scenario, rep: Arc<Reporter>, threads: usize, dfs: bool, ded
     let tls = stats.terminal_logs.lock().unwrap().clone();
     let vks = stats.viol_keys.lock().unwrap().clone();
     let tl = tls.len() as u64;
+    let tlp = stats.terminal_log_paths.lock().unwrap().clone();
     let ac = stats.action_counts.lock().unwrap().clone();
     let sp = stats.sample_paths.lock().unwrap().clone();
     Some(RunResult {
@@ -302,5 +307,6 @@ pub fn explore(scn: Scenario, rep: Arc<Reporter>, threads: usize, dfs: bool, ded
         found,
         terminal_log_set: tls,
         viol_keys: vks,
+        terminal_log_paths: tlp,
     })
 }
